@@ -5,15 +5,32 @@ import (
 	"fmt"
 	"sort"
 
+	"golang.org/x/tools/go/ssa"
+
 	"gbverif/ir"
+	"gbverif/locks"
+	"gbverif/own"
 	"gbverif/report"
 )
 
 // Ctx is what a property check gets.
 type Ctx struct {
-	P    *ir.Program
-	R    *report.Report
-	Tier string
+	P     *ir.Program
+	R     *report.Report
+	Tier  string
+	la    *locks.Analysis
+	goFns []*ssa.Function
+	oe    *own.Eng
+}
+
+func obl(rule, fn, construct, pos, verdict, detail string, witness []string) report.Obl {
+	return report.Obl{Rule: rule, Func: fn, Construct: construct, Pos: pos, Verdict: report.Verdict(verdict), Detail: detail, Witness: witness}
+}
+
+func oblT(rule, fn, construct, pos, verdict, detail string, witness []string, trivial bool) report.Obl {
+	o := obl(rule, fn, construct, pos, verdict, detail, witness)
+	o.Trivial = trivial
+	return o
 }
 
 type Check struct {
@@ -38,7 +55,6 @@ func IDs() []string {
 	return ids
 }
 
-func (c *Ctx) pos(p interface{ Pos() interface{} }) string { return "" }
 
 func must(cond bool, format string, a ...any) {
 	if !cond {
